@@ -256,13 +256,20 @@ func dropped(p Plan, id string) bool {
 	return false
 }
 
-// Live tells whether the controller configuration treats the input as live.
+// Live tells whether the input has an image: the controller configuration treats it as running and its transform does
+// not answer with DestroyOutputTag.
 func Live(p Plan, in *model.Res) bool {
-	if in == nil || dropped(p, in.ID) {
+	if p.DestroyTag && in != nil && strings.HasPrefix(in.Val, "drop") {
 		return false
 	}
 
-	if p.DestroyTag && strings.HasPrefix(in.Val, "drop") {
+	return TreatedAsRunning(p, in)
+}
+
+// TreatedAsRunning tells whether the controller configuration reconciles the input as a running one (it is running, or
+// its teardown is ignored by the controller options).
+func TreatedAsRunning(p Plan, in *model.Res) bool {
+	if in == nil || dropped(p, in.ID) {
 		return false
 	}
 
